@@ -105,13 +105,23 @@ PARENTS = {"top": [0], "child": [0, 1], "sibs": [0, 1, 1], "chain": [0, 1, 2]}
 PORT_NAMES = ["b", "a", "a$1", "p4", "p5", "p6"]
 
 
+def wide_int(v):
+    """TLC integers are 32 bits wide: larger integers travel as their binary digits (LSB first; minimal width: without a
+    sign digit when non-negative, minimal two's complement when negative)."""
+    if -(1 << 31) < v < (1 << 31):        # (TLC cannot negate -2**31)
+        return ["int", v, [], ""]
+    w = ((-v - 1).bit_length() + 1) if v < 0 else v.bit_length()
+    u = v & ((1 << w) - 1)
+    return ["wint", 0, ["1" if (u >> i) & 1 else "0" for i in range(w)], "neg" if v < 0 else ""]
+
+
 def _wfc(v):
     """Python value given to Instance(p_/a_) -> constant in the form RtlilWF compares (rtlil_parse.wf_const layout)."""
     from amaranth.hdl import Const
     if isinstance(v, bool):
         return ["int", int(v), [], ""]
     if isinstance(v, int):
-        return ["int", v, [], ""]
+        return wide_int(v)
     if isinstance(v, str):
         return ["str", 0, [], v]
     if isinstance(v, float):
@@ -412,14 +422,17 @@ def build_random(seed, size):
         k = rng.randrange(n_mods)
         a = rng.choice(sigs)
         q = Signal(3, name=rng.choice(["q", "a", "iq"]))
-        params = {"W": len(a), "NAME": rng.choice(["x", "a b", "\\esc\"aped\""]), "V": rng.choice([-1, 0, 7, -2 ** 20]),
+        params = {"W": len(a), "NAME": rng.choice(["x", "a b", "\\esc\"aped\""]),
+                  "V": rng.choice([-1, 0, 7, -2 ** 20, 2 ** 31 - 1, -2 ** 31, 2 ** 31, -2 ** 31 - 1, -5000000000, 2 ** 40 + 3, -2 ** 32]),
                   "R": rng.choice([0.5, -2.25, 1e10])}
         kw = {"p_" + n: v for n, v in params.items()}
+        big = rng.choice([3, -2 ** 31 - 1, 2 ** 33 + 1, -7000000000, -2 ** 31])
+        kw["a_big"] = big
         kw.update(a_black_box=1, i_I=a, i_J=Cat(a, Const(1, 1)), o_Q=q, io_P=IOPort(1, name=rng.choice(["pin", "a"])))
         nm = rng.choice(["u", "a", ""])
         _add_sub(mods[k], "" if nm in taken[k] else nm, Instance("ext_cell", **kw))
         ports.append(q)
-        foreign.append(["\\ext_cell", [["\\" + n, _wfc(v)] for n, v in params.items()], [["\\black_box", _wfc(1)]],
+        foreign.append(["\\ext_cell", [["\\" + n, _wfc(v)] for n, v in params.items()], [["\\big", _wfc(big)], ["\\black_box", _wfc(1)]],
                         [["\\I", "i", len(a), []], ["\\J", "i", len(a) + 1, []], ["\\Q", "o", 3, []], ["\\P", "io", 1, []]]])
     if rng.random() < 0.5:
         # a pin group: one multi-bit IOPort whose bits are buffered one by one or in slices, with
